@@ -56,6 +56,7 @@ class Context:
         self._solver = None
         V.SIDE.clear()
         self.side_seen = 0
+        self.axiom_ids = set()
         self._oracle_cache = {}
         self.ghost_log = []
         self.sigma_cache = {}
@@ -82,6 +83,7 @@ class Context:
     def collect_side(self):
         while self.side_seen < len(V.SIDE):
             self.hyps.append(V.SIDE[self.side_seen])
+            self.axiom_ids.add(V.SIDE[self.side_seen].get_id())       # facts that hold for the real sqrt/exp/log/rpow for ALL arguments
             self.side_seen += 1
 
     def all_hyps(self):
@@ -183,8 +185,10 @@ class Context:
             goal = z3.BoolVal(True)
         elif goal is False:
             goal = z3.BoolVal(False)
-        self.path_obls.append(Obligation(f"{self.prop}.{self.hname}.{name}", self.all_hyps(), V.zbool(goal), self.cur_line, kind,
-                                         path=list(d[0] for d in self.decisions)))
+        ob = Obligation(f"{self.prop}.{self.hname}.{name}", self.all_hyps(), V.zbool(goal), self.cur_line, kind,
+                        path=list(d[0] for d in self.decisions))
+        ob.axiom_ids = set(self.axiom_ids)
+        self.path_obls.append(ob)
 
     def prove_isolated(self, name, goal, hyps, kind='post', full_goal=None, extra_full_hyps=()):
         """obligation proved from the listed hypotheses only (a subset / generalisation of what is known: sound, and keeps nonlinear queries small).
@@ -193,6 +197,7 @@ class Context:
         ob = Obligation(f"{self.prop}.{self.hname}.{name}", [V.zbool(h) for h in hyps] + list(self.pc), V.zbool(goal), self.cur_line, kind,
                         path=list(d[0] for d in self.decisions))
         ob.full = (self.all_hyps() + [V.zbool(h) for h in extra_full_hyps], V.zbool(full_goal if full_goal is not None else goal))
+        ob.axiom_ids = set(self.axiom_ids)
         self.path_obls.append(ob)
 
     def safety(self, name, cond):
